@@ -52,3 +52,7 @@ Definition zsample (sel : list (option (list nat))) (f : idx -> Z) : idx -> Z :=
    (explicit zeros / duplicates are C06's subject: sptensor.scale keeps explicit zeros) *)
 Definition sp_okb (S : sparse Z) : bool :=
   Nat.eqb (length (ssubs S)) (length (svals S)) && forallb (inb (sshape S)) (ssubs S).
+Definition zimpl_ttm_dense := @impl_ttm_dense Z 0%Z Z.add Z.mul.
+Definition zimpl_mttkrp_dense := @impl_mttkrp_dense Z 0%Z Z.add Z.mul.
+Definition zimpl_innerprod_dense := @impl_innerprod_dense Z 0%Z Z.add Z.mul.
+Definition zimpl_normsq_dense := @impl_normsq_dense Z 0%Z Z.add Z.mul.
